@@ -66,6 +66,11 @@ impl TablesCodec {
             let p = engine::block_on(ctx.table_provider(t.name.as_str())).map_err(|e| format!("table {} missing in the fresh session: {e}", t.name))?;
             tables.insert(t.name.clone(), p);
         }
+        for extra in [EXTRA_TABLE, DOTTED_TABLE] {
+            if let Ok(p) = engine::block_on(ctx.table_provider(TableReference::bare(extra))) {
+                tables.insert(extra.to_string(), p);
+            }
+        }
         Ok(TablesCodec { tables, default: DefaultLogicalExtensionCodec {} })
     }
 }
@@ -110,7 +115,7 @@ impl LogicalExtensionCodec for TablesCodec {
 #[serde(tag = "kind")]
 enum Case {
     /// one grammar query, one plan form, one database
-    Plan { sql: String, optimized: bool, db_label: String, db: Database, flags: QueryFlags },
+    Plan { sql: String, optimized: bool, db_label: String, db: Database, flags: QueryFlags, execute: bool, #[serde(default)] cause: Option<String> },
     /// one (sub-)expression of a grammar query's plan, identified by its `{:?}` text
     PlanExpr { sql: String, optimized: bool, expr_debug: String },
     /// one enumerated expression shape
@@ -138,15 +143,52 @@ struct PlanStats {
     nonempty: bool,
     both_failed: bool,
     struct_eq: bool,
+    structure_only: bool,
     rows: usize,
 }
 
-/// Error text with the volatile parts (numbers, quoted names) masked: used in root-cause keys.
+/// Error text with the volatile parts (numbers, quoted names, embedded expression text) masked and
+/// the nesting wrappers removed: used in root-cause keys and rejection reasons.
 fn normalise_error(e: &str) -> String {
-    let first = e.lines().next().unwrap_or("");
+    let mut first = e.lines().next().unwrap_or("").to_string();
+    for wrapper in ["Error during planning: ", "DataFusion error: ", "General error: ", "Plan(\"", "Internal(\"", "Internal error: "] {
+        first = first.replace(wrapper, "");
+    }
+    first = first.replace("\\\"", "\"");
+    if let (Some(p), Some(q)) = (first.find("Proto serialization error: "), first.find(" is not yet supported")) {
+        let start = p + "Proto serialization error: ".len();
+        if start < q {
+            let kind = if first[start..q].contains("outer_ref") {
+                "outer reference"
+            } else if first[start..q].contains("EXISTS") {
+                "EXISTS subquery"
+            } else if first[start..q].contains(" IN (") {
+                "IN subquery"
+            } else if first[start..q].contains("ANY (") || first[start..q].contains("ALL (") {
+                "ANY/ALL subquery"
+            } else {
+                "<expr>"
+            };
+            first = format!("{}{}{}", &first[..start], kind, &first[q..]);
+        }
+    }
     let mut out = String::new();
     let mut in_digits = false;
+    let mut quote: Option<char> = None;
     for ch in first.chars() {
+        if let Some(q) = quote {
+            if ch == q {
+                quote = None;
+                out.push('_');
+                out.push(ch);
+            }
+            continue;
+        }
+        if ch == '\'' {
+            quote = Some(ch);
+            out.push(ch);
+            continue;
+        }
         if ch.is_ascii_digit() {
             if !in_digits {
                 out.push('N');
@@ -157,7 +199,51 @@ fn normalise_error(e: &str) -> String {
             out.push(ch);
         }
     }
-    out.chars().take(110).collect()
+    out.trim_end_matches([')', '"']).chars().take(120).collect()
+}
+
+/// Which field changed between two `{:?}` texts: the nearest `name:` (or, failing that, the nearest
+/// constructor name) before the first differing byte.
+fn diff_hint(a: &str, b: &str) -> String {
+    let n = a.bytes().zip(b.bytes()).take_while(|(x, y)| x == y).count();
+    let cut = a.char_indices().map(|(i, _)| i).take_while(|i| *i <= n).last().unwrap_or(0);
+    let (head, tail) = (&a[..cut], &a[cut..]);
+    // a field present in the original and missing in the copy: `, field: ..`
+    let t = tail.trim_start_matches([',', ' ']);
+    let ident: String = t.chars().take_while(|c| c.is_alphanumeric() || *c == '_').collect();
+    if !ident.is_empty() && t[ident.len()..].starts_with(": ") {
+        return ident;
+    }
+    // otherwise the innermost enclosing `field: `, else the innermost enclosing constructor
+    let ident_before = |i: usize| -> String { head[..i].trim_end().chars().rev().take_while(|c| c.is_alphanumeric() || *c == '_').collect::<String>().chars().rev().collect() };
+    let mut fallback: Option<String> = None;
+    let mut depth = 0i32;
+    let bytes = head.as_bytes();
+    let mut i = bytes.len();
+    while i > 0 {
+        i -= 1;
+        match bytes[i] {
+            b')' | b'}' | b']' => depth += 1,
+            b'(' | b'{' | b'[' => {
+                if depth == 0 {
+                    let name = ident_before(i);
+                    if fallback.is_none() && !name.is_empty() && name != "Some" && name != "Box" {
+                        fallback = Some(name);
+                    }
+                } else {
+                    depth -= 1;
+                }
+            }
+            b':' if depth == 0 && i + 1 < bytes.len() && bytes[i + 1] == b' ' => {
+                let name = ident_before(i);
+                if !name.is_empty() {
+                    return name;
+                }
+            }
+            _ => {}
+        }
+    }
+    fallback.unwrap_or_else(|| "?".into())
 }
 
 /// The logical node kind a `display_indent` line describes (`  Projection: ..` -> `Projection`).
@@ -221,90 +307,180 @@ fn corrupt_plan(p: LogicalPlan, how: &str) -> LogicalPlan {
     }
 }
 
+/// Text comparison of two indented plan texts.  Parents inherit their children's schema, so only
+/// the *deepest* differing lines are reported (a differing line with no differing descendant), one
+/// failure per logical node kind.
+fn text_fails(kind: &str, sql: &str, optimized: bool, t0: &str, t1: &str, out: &mut Vec<Fail>) {
+    if t0 == t1 {
+        return;
+    }
+    let (la, lb): (Vec<&str>, Vec<&str>) = (t0.lines().collect(), t1.lines().collect());
+    if la.len() != lb.len() {
+        let (x, y) = first_diff(t0, t1);
+        // the node whose list of children changed: the parent of the first differing line
+        let i = la.iter().zip(&lb).take_while(|(p, q)| p == q).count().min(la.len().saturating_sub(1));
+        let ind = |l: &str| l.len() - l.trim_start().len();
+        let parent = (0..i).rev().find(|j| ind(la[*j]) < ind(la[i])).map(|j| node_kind(la[j])).unwrap_or_else(|| node_kind(&x));
+        out.push(Fail { cause: format!("{kind}:shape:{parent}"), what: format!("plan shape differs after the round trip of {sql} (optimized={optimized}): `{x}` became `{y}`\noriginal:\n{t0}\ndecoded:\n{t1}") });
+        return;
+    }
+    let indent = |l: &str| l.len() - l.trim_start().len();
+    let differs: Vec<bool> = la.iter().zip(&lb).map(|(x, y)| x != y).collect();
+    let mut seen: Vec<String> = vec![];
+    for i in 0..la.len() {
+        if !differs[i] {
+            continue;
+        }
+        let d = indent(la[i]);
+        let has_differing_descendant = (i + 1..la.len()).take_while(|j| indent(la[*j]) > d).any(|j| differs[j]);
+        if has_differing_descendant {
+            continue;
+        }
+        let k = node_kind(la[i]);
+        if !seen.contains(&k) {
+            seen.push(k.clone());
+            out.push(Fail {
+                cause: format!("{kind}:{k}"),
+                what: format!("plan text differs after the round trip of {sql} (optimized={optimized}): `{}` became `{}`\noriginal:\n{t0}\ndecoded:\n{t1}", la[i].trim(), lb[i].trim()),
+            });
+        }
+    }
+}
+
+/// `{:?}` of a plan (the derived, fully structural text).  `Explain::stringified_plans` /
+/// `logical_optimization_succeeded` are the optimizer's own log of the session that built the plan
+/// and are recomputed by the decoder by design, so an EXPLAIN is compared through its inner plan.
+fn debug_text(p: &LogicalPlan) -> String {
+    match p {
+        LogicalPlan::Explain(e) => format!("Explain {{ verbose: {}, explain_format: {:?}, plan: {:?} }}", e.verbose, e.explain_format, e.plan),
+        p => format!("{p:?}"),
+    }
+}
+
 /// One plan case on prepared sessions.  `ctx_a` plans + encodes + runs the original, `ctx_b`
-/// (fresh, same tables) decodes + runs the copy.
-fn check_plan(ctx_a: &SessionContext, ctx_b: &SessionContext, codec_b: &TablesCodec, sql: &str, optimized: bool, flags: &QueryFlags) -> Result<PlanStats, Fail> {
+/// (fresh, same tables) decodes + runs the copy.  Every demanded equality is checked even when an
+/// earlier one fails, so one root cause does not hide another.
+fn check_plan(ctx_a: &SessionContext, ctx_b: &SessionContext, codec_b: &TablesCodec, sql: &str, optimized: bool, flags: &QueryFlags, execute: bool) -> (PlanStats, Vec<Fail>) {
     let mut st = PlanStats::default();
+    let mut fails: Vec<Fail> = vec![];
     let plan = match build_plan(ctx_a, sql, optimized) {
         Ok(p) => p,
-        Err(_) => return Ok(st), // the direct route does not plan this statement: nothing to round-trip (C01 owns that)
+        Err(_) => return (st, fails), // the direct route does not plan this statement: nothing to round-trip (C01 owns that)
     };
     st.planned = true;
     // default-codec entry points: accepted only by table-free plans
     if let Ok(Ok(bytes)) = mc_core::catch(|| logical_plan_to_bytes(&plan)) {
         st.default_codec_accepted = true;
         match mc_core::catch(|| logical_plan_from_bytes(&bytes, &ctx_b.task_ctx())) {
-            Ok(Ok(back)) => {
-                let (t0, t1) = (format!("{}", plan.display_indent_schema()), format!("{}", back.display_indent_schema()));
-                if t0 != t1 {
-                    let (x, y) = first_diff(&t0, &t1);
-                    return fail(format!("plan_text_changed:{}", node_kind(&x)), format!("logical_plan_to_bytes/from_bytes changed the plan of {sql} (optimized={optimized}): `{x}` became `{y}`"));
-                }
-            }
+            Ok(Ok(back)) => text_fails("plan_text_changed", sql, optimized, &format!("{}", plan.display_indent_schema()), &format!("{}", back.display_indent_schema()), &mut fails),
             Ok(Err(e)) => {
                 // the default codec's own decoder refusing a table provider it cannot resolve is a documented rejection
                 if !e.to_string().contains("LogicalExtensionCodec is not provided") {
-                    return fail(format!("decode_error:{}", normalise_error(&e.to_string())), format!("logical_plan_from_bytes failed on bytes produced by logical_plan_to_bytes for {sql} (optimized={optimized}): {e}"));
+                    fails.push(Fail { cause: format!("decode_error:{}", normalise_error(&e.to_string())), what: format!("logical_plan_from_bytes failed on bytes produced by logical_plan_to_bytes for {sql} (optimized={optimized}): {e}") });
                 }
             }
-            Err(p) => return fail(format!("decode_panic:{}", normalise_error(&p)), format!("logical_plan_from_bytes panicked for {sql} (optimized={optimized}): {p}")),
+            Err(p) => fails.push(Fail { cause: format!("decode_panic:{}", normalise_error(&p)), what: format!("logical_plan_from_bytes panicked for {sql} (optimized={optimized}): {p}") }),
         }
     }
     let bytes = match mc_core::catch(|| logical_plan_to_bytes_with_extension_codec(&plan, &TablesCodec::encoder())) {
         Ok(Ok(b)) => b,
         Ok(Err(e)) => {
             st.encode_rejected = Some(normalise_error(&e.to_string()));
-            return Ok(st);
+            return (st, fails);
         }
-        Err(p) => return fail(format!("encode_panic:{}", normalise_error(&p)), format!("encoder panicked for {sql} (optimized={optimized}): {p}")),
+        Err(p) => {
+            fails.push(Fail { cause: format!("encode_panic:{}", normalise_error(&p)), what: format!("encoder panicked for {sql} (optimized={optimized}): {p}") });
+            return (st, fails);
+        }
     };
     let back = match mc_core::catch(|| logical_plan_from_bytes_with_extension_codec(&bytes, &ctx_b.task_ctx(), codec_b)) {
         Ok(Ok(p)) => p,
         Ok(Err(e)) => {
-            return fail(
-                format!("decode_error:{}", normalise_error(&e.to_string())),
-                format!("encoding succeeded but decoding in a fresh session failed for {sql} (optimized={optimized}): {e}\noriginal plan:\n{}", plan.display_indent_schema()),
-            );
+            fails.push(Fail {
+                cause: format!("decode_error:{}", normalise_error(&e.to_string())),
+                what: format!("encoding succeeded but decoding in a fresh session failed for {sql} (optimized={optimized}): {e}\noriginal plan:\n{}", plan.display_indent_schema()),
+            });
+            return (st, one_cause_for_dotted(sql, fails));
         }
-        Err(p) => return fail(format!("decode_panic:{}", normalise_error(&p)), format!("decoder panicked for {sql} (optimized={optimized}): {p}")),
+        Err(p) => {
+            fails.push(Fail { cause: format!("decode_panic:{}", normalise_error(&p)), what: format!("decoder panicked for {sql} (optimized={optimized}): {p}") });
+            return (st, fails);
+        }
     };
     let back = match demo() {
         Some(how) => corrupt_plan(back, &how),
         None => back,
     };
-    let (t0, t1) = (format!("{}", plan.display_indent_schema()), format!("{}", back.display_indent_schema()));
-    if t0 != t1 {
-        let (x, y) = first_diff(&t0, &t1);
-        return fail(
-            format!("plan_text_changed:{}", node_kind(&x)),
-            format!("display_indent_schema differs after the round trip of {sql} (optimized={optimized}): `{x}` became `{y}`\noriginal:\n{t0}\ndecoded:\n{t1}"),
-        );
-    }
-    let (d0, d1) = (format!("{plan:?}"), format!("{back:?}"));
-    if d0 != d1 {
-        let (x, y) = first_diff(&d0, &d1);
-        return fail(format!("plan_debug_changed:{}", node_kind(&x)), format!("Debug text differs after the round trip of {sql} (optimized={optimized}): `{x}` became `{y}`"));
+    let before = fails.len();
+    text_fails("plan_text_changed", sql, optimized, &format!("{}", plan.display_indent_schema()), &format!("{}", back.display_indent_schema()), &mut fails);
+    if fails.len() == before {
+        // the derived `{:?}` shows every field: consulted when the indented text agrees
+        let (d0, d1) = (debug_text(&plan), debug_text(&back));
+        // a difference that one of the plan's own expressions already shows when round-tripped alone
+        // is that expression's root cause (same key as the expression-level case)
+        let mut expr_causes: Vec<Fail> = vec![];
+        if d0 != d1 {
+            let mut m = BTreeMap::new();
+            collect_exprs(&plan, &mut m);
+            let res: BTreeMap<&String, Result<ExprOutcome, Fail>> = m.iter().map(|(k, e)| (k, check_expr(e, ctx_b, codec_b))).collect();
+            for (k, e) in &m {
+                if let Some(Err(f)) = res.get(k) {
+                    let child_fails = direct_children(e).iter().any(|c| matches!(res.get(&format!("{c:?}")), Some(Err(_))));
+                    if !child_fails && !expr_causes.iter().any(|x| x.cause == f.cause) {
+                        expr_causes.push(Fail { cause: f.cause.clone(), what: format!("in the plan of {sql} (optimized={optimized}): {}", f.what) });
+                    }
+                }
+            }
+        }
+        if !expr_causes.is_empty() {
+            fails.extend(expr_causes);
+        } else if d0 != d1 {
+            let n = d0.bytes().zip(d1.bytes()).take_while(|(x, y)| x == y).count();
+            let ctx_of = |d: &str| -> String { d.chars().skip(n.saturating_sub(160)).take(400).collect() };
+            fails.push(Fail {
+                cause: format!("plan_debug_changed:{}", diff_hint(&d0, &d1)),
+                what: format!("display_indent_schema is unchanged but the {{:?}} text differs after the round trip of {sql} (optimized={optimized}):\n  original: ..{}..\n  decoded:  ..{}..", ctx_of(&d0), ctx_of(&d1)),
+            });
+        }
     }
     st.struct_eq = plan == back;
+    if !execute {
+        st.structure_only = true;
+        return (st, fails);
+    }
     let r0 = engine::run_plan(ctx_a, plan);
     let r1 = engine::run_plan(ctx_b, back);
     match (r0, r1) {
         (Ok(a), Ok(b)) => {
             let spec: OrderSpec = flags.into();
+            // one key per root cause: a result change next to a text change is a consequence of it
+            let because = fails.last().map(|f| format!("{} (and the result changes)", f.cause));
             if let Err(w) = compare_engine_results(&a.rows, &b.rows, &spec) {
-                return fail(format!("result_changed:{sql}"), format!("decoded plan of {sql} (optimized={optimized}) has the same text but returns a different result: {w}"));
-            }
-            if a.arrow_types != b.arrow_types {
-                return fail(format!("result_types_changed:{sql}"), format!("decoded plan of {sql} (optimized={optimized}) returns column types {:?}, the original {:?}", b.arrow_types, a.arrow_types));
+                fails.push(Fail { cause: because.unwrap_or_else(|| "result_changed_although_text_is_identical".into()), what: format!("decoded plan of {sql} (optimized={optimized}) returns a different result: {w}") });
+            } else if a.arrow_types != b.arrow_types {
+                fails.push(Fail {
+                    cause: because.unwrap_or_else(|| "result_types_changed_although_text_is_identical".into()),
+                    what: format!("decoded plan of {sql} (optimized={optimized}) returns column types {:?}, the original {:?}", b.arrow_types, a.arrow_types),
+                });
             }
             st.rows = a.rows.len();
             st.nonempty = !a.rows.is_empty();
         }
         (Err(_), Err(_)) => st.both_failed = true,
-        (Ok(a), Err(e)) => return fail(format!("decoded_plan_fails:{}", normalise_error(&e)), format!("original plan of {sql} (optimized={optimized}) returns {} but the decoded plan fails: {e}", show_rows(&a.rows))),
-        (Err(e), Ok(b)) => return fail(format!("only_original_fails:{}", normalise_error(&e)), format!("original plan of {sql} (optimized={optimized}) fails ({e}) but the decoded plan returns {}", show_rows(&b.rows))),
+        (Ok(a), Err(e)) => fails.push(Fail { cause: format!("decoded_plan_fails:{}", normalise_error(&e)), what: format!("original plan of {sql} (optimized={optimized}) returns {} but the decoded plan fails: {e}", show_rows(&a.rows)) }),
+        (Err(e), Ok(b)) => fails.push(Fail { cause: format!("only_original_fails:{}", normalise_error(&e)), what: format!("original plan of {sql} (optimized={optimized}) fails ({e}) but the decoded plan returns {}", show_rows(&b.rows)) }),
     }
-    Ok(st)
+    (st, one_cause_for_dotted(sql, fails))
+}
+
+/// The two supplement statements over the table named `d.csv` exist to show one thing at plan
+/// level (a relation name containing a dot is re-parsed as `schema.table` by the Column decoder);
+/// whatever symptom it produces (decode error, changed text, failing execution) is one root cause.
+fn one_cause_for_dotted(sql: &str, fails: Vec<Fail>) -> Vec<Fail> {
+    if !sql.contains(DOTTED_TABLE) {
+        return fails;
+    }
+    fails.into_iter().take(1).map(|f| Fail { cause: "relation_name_containing_dot_is_reparsed".into(), what: format!("[{}] {}", f.cause, f.what) }).collect()
 }
 
 // ------------------------------------------------------------------ expressions
@@ -333,7 +509,7 @@ fn check_expr(e: &Expr, ctx_b: &SessionContext, codec_b: &TablesCodec) -> Result
     };
     let mut back = match mc_core::catch(|| logical_exprs_from_bytes_with_extension_codec(&bytes, &ctx_b.task_ctx(), codec_b)) {
         Ok(Ok(v)) => v,
-        Ok(Err(err)) => return fail(format!("expr_decode_error:{name}:{}", normalise_error(&err.to_string())), format!("encoding of `{e}` succeeded but decoding failed: {err}\nexpression: {e:?}")),
+        Ok(Err(err)) => return fail(format!("expr_decode_error:{}", normalise_error(&err.to_string())), format!("encoding of `{e}` succeeded but decoding failed: {err}\nexpression: {e:?}")),
         Err(p) => return fail(format!("expr_decode_panic:{name}"), format!("decoder panicked on the bytes of {e}: {p}")),
     };
     if back.len() != 1 {
@@ -346,7 +522,8 @@ fn check_expr(e: &Expr, ctx_b: &SessionContext, codec_b: &TablesCodec) -> Result
         }
     }
     if &back != e {
-        return fail(format!("expr_changed:{name}"), format!("decoded expression differs from the original `{e}`\noriginal: {e:?}\ndecoded:  {back:?}"));
+        let (d0, d1) = (format!("{e:?}"), format!("{back:?}"));
+        return fail(format!("expr_changed:{name}:{}", diff_hint(&d0, &d1)), format!("decoded expression differs from the original `{e}`\noriginal: {d0}\ndecoded:  {d1}"));
     }
     if !contains_plan(e) {
         // the `Serializeable` entry point (default codec) must agree
@@ -354,10 +531,10 @@ fn check_expr(e: &Expr, ctx_b: &SessionContext, codec_b: &TablesCodec) -> Result
             Ok(Ok(b2)) => match mc_core::catch(|| Expr::from_bytes_with_ctx(&b2, &ctx_b.task_ctx())) {
                 Ok(Ok(back2)) => {
                     if &back2 != e {
-                        return fail(format!("expr_changed:{name}"), format!("Expr::from_bytes_with_ctx(Expr::to_bytes(e)) differs from `{e}`\noriginal: {e:?}\ndecoded:  {back2:?}"));
+                        return fail(format!("expr_changed:{name}:{}", diff_hint(&format!("{e:?}"), &format!("{back2:?}"))), format!("Expr::from_bytes_with_ctx(Expr::to_bytes(e)) differs from `{e}`\noriginal: {e:?}\ndecoded:  {back2:?}"));
                     }
                 }
-                Ok(Err(err)) => return fail(format!("expr_decode_error:{name}:{}", normalise_error(&err.to_string())), format!("Expr::to_bytes succeeded on `{e}` but from_bytes_with_ctx failed: {err}")),
+                Ok(Err(err)) => return fail(format!("expr_decode_error:{}", normalise_error(&err.to_string())), format!("Expr::to_bytes succeeded on `{e}` but from_bytes_with_ctx failed: {err}")),
                 Err(p) => return fail(format!("expr_decode_panic:{name}"), format!("Expr::from_bytes_with_ctx panicked on {e}: {p}")),
             },
             Ok(Err(_)) => {}
@@ -401,9 +578,80 @@ fn expr_size(e: &Expr) -> usize {
 
 // ------------------------------------------------------------------ run one case (replay)
 
+/// Statements over quoted / case-sensitive identifiers (the grammar only uses lower-case names).
+/// `"MyT"("K" INT, "v w" INT)` holds the rows of `t`.
+const SUPPLEMENT: [&str; 18] = [
+    "SELECT a, b FROM t WHERE FALSE",
+    "(SELECT a FROM t UNION ALL SELECT a FROM u) UNION ALL SELECT b FROM t",
+    r#"SELECT "d.csv"."K" FROM "d.csv" WHERE "K" IS NOT NULL"#,
+    r#"SELECT * FROM "d.csv""#,
+    "SELECT unnest([1, 2, 3]) AS x",
+    "SELECT a, unnest(make_array(b, 10)) AS x FROM t",
+    "SELECT unnest(make_array(a, b)) AS x, unnest(make_array(b)) AS y FROM t",
+    "SELECT x FROM unnest([1, 2, NULL]) AS u(x)",
+    "SELECT struct(a, b) AS s FROM t",
+    "SELECT named_struct('x', a, 'y', b)['x'] AS x FROM t",
+    "SELECT make_array(a, b)[1] AS x FROM t",
+    r#"SELECT "K", "v w" FROM "MyT""#,
+    r#"SELECT "MyT"."K" FROM "MyT" WHERE "MyT"."v w" IS NOT NULL"#,
+    r#"SELECT x."K" AS "Out Col" FROM "MyT" AS x"#,
+    r#"SELECT "T2".a FROM t AS "T2" WHERE "T2".b > 1"#,
+    r#"SELECT t.a, "MyT"."K" FROM t JOIN "MyT" ON t.a = "MyT"."K""#,
+    r#"SELECT a AS "A", b AS "a b" FROM t"#,
+    r#"SELECT "K", count(*) AS "N" FROM "MyT" GROUP BY "K""#,
+];
+const EXTRA_TABLE: &str = "MyT";
+/// a table whose *name* contains a dot (what datafusion-cli registers for `SELECT .. FROM 'd.csv'`)
+const DOTTED_TABLE: &str = "d.csv";
+
+/// Statements that are planned and round-tripped but never executed (they would change the
+/// catalog / write files); the quantifier of C35 names DML, COPY and DDL plans explicitly.
+const STRUCTURE_ONLY: [&str; 22] = [
+    "INSERT INTO t VALUES (1, 2), (3, NULL)",
+    "INSERT INTO t (b, a) SELECT b, a FROM t WHERE a > 1",
+    "INSERT OVERWRITE t SELECT a, b FROM t",
+    "DELETE FROM t WHERE a = 1",
+    "DELETE FROM t",
+    "UPDATE t SET b = b + 1 WHERE a = 1",
+    "COPY (SELECT a, b FROM t) TO '/tmp/c35_out.csv' STORED AS CSV",
+    "COPY t TO '/tmp/c35_out.parquet' STORED AS PARQUET OPTIONS ('format.compression' 'zstd(3)')",
+    "COPY (SELECT a FROM t) TO '/tmp/c35_out.json' STORED AS JSON",
+    "COPY (SELECT a, b FROM t) TO '/tmp/c35_out/' STORED AS CSV PARTITIONED BY (a) OPTIONS ('format.delimiter' ';', 'format.has_header' 'false')",
+    "EXPLAIN SELECT a FROM t WHERE b > 1",
+    "EXPLAIN VERBOSE SELECT a FROM t",
+    "EXPLAIN ANALYZE SELECT a FROM t",
+    "CREATE VIEW v AS SELECT a, b FROM t WHERE a > 1",
+    "CREATE OR REPLACE VIEW v AS SELECT 1 AS x",
+    "CREATE TABLE n AS SELECT a FROM t",
+    "CREATE TABLE m (a INT PRIMARY KEY, b TEXT)",
+    "CREATE EXTERNAL TABLE ext (a INT, b INT) STORED AS CSV LOCATION '/tmp/c35_ext/' OPTIONS ('format.has_header' 'true')",
+    "DROP VIEW IF EXISTS v",
+    "DROP TABLE IF EXISTS t",
+    "PREPARE p(INT) AS SELECT a FROM t WHERE b = $1",
+    "SELECT a FROM t WHERE b = $1 AND a < $2",
+];
+
+fn register_extra(ctx: &SessionContext, dbv: &Database) -> Result<(), String> {
+    use datafusion::arrow::array::{ArrayRef, Int32Array, RecordBatch};
+    use datafusion::arrow::datatypes::{DataType, Field, Schema};
+    let rows: Vec<Vec<chk_sql::sqlmc::Value>> = dbv.table("t").map(|t| t.rows.clone()).unwrap_or_default();
+    let colv = |i: usize| -> ArrayRef {
+        Arc::new(Int32Array::from(rows.iter().map(|r| match &r[i] { chk_sql::sqlmc::Value::Int(x) => Some(*x as i32), _ => None }).collect::<Vec<_>>()))
+    };
+    let schema = Arc::new(Schema::new(vec![Field::new("K", DataType::Int32, true), Field::new("v w", DataType::Int32, true)]));
+    let parts = if rows.is_empty() { vec![vec![]] } else { vec![vec![RecordBatch::try_new(schema.clone(), vec![colv(0), colv(1)]).map_err(|e| e.to_string())?]] };
+    let mt = MemTable::try_new(schema, parts).map_err(|e| e.to_string())?;
+    let mt = Arc::new(mt);
+    ctx.register_table(TableReference::bare(EXTRA_TABLE), mt.clone()).map_err(|e| e.to_string())?;
+    ctx.register_table(TableReference::bare(DOTTED_TABLE), mt).map_err(|e| e.to_string())?;
+    Ok(())
+}
+
 fn fresh_pair(dbv: &Database) -> Result<(SessionContext, SessionContext, TablesCodec), String> {
     let a = engine::make_context(dbv, &ContextOptions::default())?;
     let b = engine::make_context(dbv, &ContextOptions::default())?;
+    register_extra(&a, dbv)?;
+    register_extra(&b, dbv)?;
     let codec = TablesCodec::for_session(&b, dbv)?;
     Ok((a, b, codec))
 }
@@ -414,9 +662,20 @@ fn expr_db() -> Database {
 
 fn run_case(c: &Case) -> Result<(), Fail> {
     match c {
-        Case::Plan { sql, optimized, db, flags, .. } => {
+        Case::Plan { sql, optimized, db, flags, cause, execute, .. } => {
             let (a, b, codec) = fresh_pair(db).map_err(|e| Fail { cause: "machinery".into(), what: e })?;
-            check_plan(&a, &b, &codec, sql, *optimized, flags).map(|_| ())
+            let (_, fails) = check_plan(&a, &b, &codec, sql, *optimized, flags, *execute);
+            match cause {
+                // a replay file pins one root cause of the case
+                Some(c) => match fails.into_iter().find(|f| &f.cause == c) {
+                    Some(f) => Err(f),
+                    None => Ok(()),
+                },
+                None => match fails.into_iter().next() {
+                    Some(f) => Err(f),
+                    None => Ok(()),
+                },
+            }
         }
         Case::PlanExpr { sql, optimized, expr_debug } => {
             let dbv = expr_db();
@@ -445,7 +704,7 @@ fn run_case(c: &Case) -> Result<(), Fail> {
 fn check_scalar(s: &datafusion::common::ScalarValue, ctx_b: &SessionContext, codec_b: &TablesCodec) -> Result<ExprOutcome, Fail> {
     let e = Expr::Literal(s.clone(), None);
     match check_expr(&e, ctx_b, codec_b) {
-        Err(f) => Err(Fail { cause: format!("scalar:{}:{}", f.cause, scalar_kind(s)), what: f.what }),
+        Err(f) => Err(Fail { cause: format!("scalar:{}:{}", scalar_kind(s), f.cause), what: f.what }),
         ok => ok,
     }
 }
@@ -478,14 +737,19 @@ fn record(fails: &FailMap, f: Fail, rank: (usize, usize, String), case: Case) {
 
 fn explore(ctx: &Ctx) {
     let tier = ctx.pick(Tier::Quick, Tier::Thorough);
-    let qs: Vec<GenQuery> = grammar::queries(tier);
+    let gq: Vec<GenQuery> = grammar::queries(tier);
+    // (sql, flags, size, execute)
+    let mut qs: Vec<(String, QueryFlags, usize, bool)> = gq.iter().map(|q| (q.sql.clone(), q.flags.clone(), q.size, true)).collect();
+    let n_grammar = qs.len();
+    qs.extend(SUPPLEMENT.iter().map(|s| (s.to_string(), QueryFlags::default(), 5, true)));
+    qs.extend(STRUCTURE_ONLY.iter().map(|s| (s.to_string(), QueryFlags::default(), 5, false)));
     let dbs = db::rich_databases();
     let fails: FailMap = Mutex::new(BTreeMap::new());
     let rejected: Mutex<BTreeMap<String, (u64, String)>> = Mutex::new(BTreeMap::new());
     ctx.set_extra(
         "bounds",
         json!({
-            "queries": qs.len(), "plan_forms": ["unoptimized", "optimized"], "databases": dbs.iter().map(|d| d.0.clone()).collect::<Vec<_>>(),
+            "queries": n_grammar, "supplement_executed (quoted identifiers, unnest, struct, constant-false filter, 3-way union)": SUPPLEMENT, "supplement_structure_only (DML, COPY, DDL, EXPLAIN, PREPARE: planned and round-tripped, never executed)": STRUCTURE_ONLY, "plan_forms": ["unoptimized", "optimized"], "databases": dbs.iter().map(|d| d.0.clone()).collect::<Vec<_>>(),
             "config": "default, target_partitions=1; tables = 1-partition MemTables shipped by name (harness LogicalExtensionCodec)",
             "wire_forms": "binary protobuf (JSON form not available: datafusion-proto `json` feature is off in this workspace)",
         }),
@@ -500,6 +764,7 @@ fn explore(ctx: &Ctx) {
             work.push((di, qi));
         }
     }
+    let plan_samples = std::sync::atomic::AtomicUsize::new(0);
     work.par_iter().for_each(|(di, q0)| {
         if ctx.out_of_time() {
             return;
@@ -518,43 +783,48 @@ fn explore(ctx: &Ctx) {
                 if ctx.out_of_time() {
                     return;
                 }
-                let case = || Case::Plan { sql: q.sql.clone(), optimized, db_label: label.clone(), db: dbv.clone(), flags: q.flags.clone() };
-                match check_plan(&a, &b, &codec, &q.sql, optimized, &q.flags) {
-                    Ok(st) => {
-                        if !st.planned {
-                            ctx.count("plans_not_built_by_direct_route", 1);
-                            continue;
-                        }
-                        ctx.eval();
-                        ctx.count(if optimized { "plan_cases_optimized" } else { "plan_cases_unoptimized" }, 1);
-                        if st.default_codec_accepted {
-                            ctx.count("plan_cases_accepted_by_default_codec", 1);
-                        }
-                        if let Some(why) = st.encode_rejected {
-                            ctx.count("plan_cases_encoder_rejected", 1);
-                            let mut r = rejected.lock().unwrap();
-                            let e = r.entry(format!("plan: {why}")).or_insert((0, q.sql.clone()));
-                            e.0 += 1;
-                            continue;
-                        }
-                        ctx.count("plan_cases_round_tripped", 1);
-                        if st.both_failed {
-                            ctx.count("plan_cases_both_routes_fail_at_run_time", 1);
-                        }
-                        if !st.struct_eq {
-                            ctx.count("plan_cases_same_text_but_not_partial_eq", 1);
-                        }
-                        if st.nonempty {
-                            ctx.nontrivial(&("plan", &q.sql, optimized, label));
-                            if ctx.want_sample() && st.rows >= 2 && q.size > 14 && optimized {
-                                ctx.sample(json!({"kind": "plan", "sql": q.sql, "optimized": optimized, "db": label, "result_rows": st.rows, "encoded_with": "TablesCodec"}));
-                            }
-                        }
+                let (st, fl) = check_plan(&a, &b, &codec, &q.0, optimized, &q.1, q.3);
+                if !st.planned {
+                    ctx.count("plans_not_built_by_direct_route", 1);
+                    continue;
+                }
+                ctx.eval();
+                ctx.count(if optimized { "plan_cases_optimized" } else { "plan_cases_unoptimized" }, 1);
+                if st.default_codec_accepted {
+                    ctx.count("plan_cases_accepted_by_default_codec", 1);
+                }
+                if !fl.is_empty() {
+                    ctx.count("plan_cases_failed", 1);
+                    for f in fl {
+                        let case = Case::Plan { sql: q.0.clone(), optimized, db_label: label.clone(), db: dbv.clone(), flags: q.1.clone(), execute: q.3, cause: Some(f.cause.clone()) };
+                        record(&fails, f, (qi, dbv.total_rows(), label.clone()), case);
                     }
-                    Err(f) => {
-                        ctx.eval();
-                        ctx.count("plan_cases_failed", 1);
-                        record(&fails, f, (qi, dbv.total_rows(), label.clone()), case());
+                    continue;
+                }
+                if let Some(why) = st.encode_rejected {
+                    ctx.count("plan_cases_encoder_rejected", 1);
+                    let mut r = rejected.lock().unwrap();
+                    let e = r.entry(format!("plan: {why}")).or_insert((0, q.0.clone()));
+                    e.0 += 1;
+                    continue;
+                }
+                ctx.count("plan_cases_round_tripped", 1);
+                if st.both_failed {
+                    ctx.count("plan_cases_both_routes_fail_at_run_time", 1);
+                }
+                if !st.struct_eq {
+                    ctx.count("plan_cases_same_text_but_not_partial_eq", 1);
+                }
+                if st.structure_only {
+                    ctx.count("plan_cases_structure_only", 1);
+                    if *di == 0 {
+                        ctx.nontrivial(&("plan-structure", &q.0, optimized));
+                    }
+                }
+                if st.nonempty {
+                    ctx.nontrivial(&("plan", &q.0, optimized, label));
+                    if st.rows >= 2 && q.2 > 14 && optimized && plan_samples.fetch_add(1, std::sync::atomic::Ordering::Relaxed) < 2 {
+                        ctx.sample(json!({"kind": "plan", "sql": q.0, "optimized": optimized, "db": label, "result_rows": st.rows, "encoded_with": "TablesCodec"}));
                     }
                 }
             }
@@ -574,7 +844,7 @@ fn explore(ctx: &Ctx) {
     let mut plan_exprs: BTreeMap<String, (Expr, usize, bool)> = BTreeMap::new();
     for (qi, q) in qs.iter().enumerate() {
         for optimized in [false, true] {
-            if let Ok(p) = build_plan(&a, &q.sql, optimized) {
+            if let Ok(p) = build_plan(&a, &q.0, optimized) {
                 let mut m = BTreeMap::new();
                 collect_exprs(&p, &mut m);
                 for (k, e) in m {
@@ -614,7 +884,7 @@ fn explore(ctx: &Ctx) {
             // minimal: no direct child fails
             let child_fails = direct_children(e).iter().any(|c| matches!(outcomes.get(&format!("{c:?}")), Some(Err(_))));
             if !child_fails {
-                record(&fails, f.clone(), (expr_size(e), *qi, k.clone()), Case::PlanExpr { sql: qs[*qi].sql.clone(), optimized: *optimized, expr_debug: k.clone() });
+                record(&fails, f.clone(), (expr_size(e), *qi, k.clone()), Case::PlanExpr { sql: qs[*qi].0.clone(), optimized: *optimized, expr_debug: k.clone() });
             }
         }
     }
@@ -720,7 +990,11 @@ fn debug_main(args: &[String]) -> bool {
             }
             Err(e) => println!("plan error: {e}"),
         }
-        println!("verdict: {:?}", check_plan(&a, &b, &codec, &sql, optimized, &QueryFlags::default()));
+        let (st, fl) = check_plan(&a, &b, &codec, &sql, optimized, &QueryFlags::default(), !args.iter().any(|a| a == "--no-exec"));
+        println!("stats: {st:?}");
+        for f in fl {
+            println!("FAIL [{}] {}", f.cause, f.what);
+        }
         return true;
     }
     if args.iter().any(|a| a == "--list-shapes") {
